@@ -340,6 +340,28 @@ def run(ctx):
                 src = {c_.split("::")[-1] for c_ in d_.calls} & {"members", "member_count"}
                 ctx.ob("HKMEMBERS", f"bit-field-width|{nm.split('::')[-1]}", bool(src), f"{nm.split('::')[-1]}: the presence bit field is sized by {sorted(src) or sorted(c_.split('::')[-1] for c_ in d_.calls)}; must be the type's full member count", rb_.file, rb_.line)
     ctx.floor("HKMEMBERS", "presence bit fields read", n_bf, 2)
+    # an array's prefix (the element type's presence bit field for struct arrays, the kind integer of v3 int arrays) is
+    # in the stream whatever the length: read_array must reach its dispatch on the element type without first deciding
+    # anything else (an early return for `array_len == 0` leaves the prefix unread and the reader out of step)
+    ran = [n_ for n_ in prog.raw_bodies if n_.startswith("havok::binary_tag_file_reader::") and n_.endswith("::read_array")]
+    if len(ran) != 1:
+        ctx.fail_closed("HKMEMBERS", f"read_array of the tag-file reader not found ({len(ran)})")
+    else:
+        ab_ = prog.raw_bodies[ran[0]]
+        aix = index_of(ab_)
+        cur, first = 0, None
+        for _hop in range(64):
+            t_ = ab_.blocks[cur]["t"]
+            if t_["k"] == "switch":
+                first = cur
+                break
+            nxt = [s_ for s_ in ab_.succ(cur) if not ab_.blocks[s_]["cleanup"]]
+            if len(nxt) != 1:
+                break
+            cur = nxt[0]
+        via = sorted({c_.split("::")[-1] for c_ in derive(aix, ab_.blocks[first]["t"]["a"]).calls}) if first is not None else None
+        pars = sorted(derive(aix, ab_.blocks[first]["t"]["a"]).params) if first is not None else None
+        ctx.ob("HKMEMBERS", "read_array|dispatch-first", first is not None and "base_type" in via, f"read_array's first decision is on a value from {via} (parameters {pars}); it must be the element type's base type, for every array length", ab_.file, ab_.line)
     # the bit field of `count` members occupies ceil(count / 8) bytes: the byte count handed to read_bytes, as an
     # expression of the parameter, is evaluated for every count up to 4096 (integer +, -, *, /, %, &, |, >>, <<, div_ceil)
     bfb = prog.body("havok::binary_tag_file_reader::HavokBinaryTagFileReader::<'a>::read_bit_field")
